@@ -98,6 +98,11 @@ impl Read for CompressedReader {
             #[cfg(feature = "flate2")]
             CompressedReader::Gzip(s) => {
                 let n = s.read(buf)?;
+                // A decoder whose gzip header could not be read reports that error once and an end of stream from then on:
+                // such a body has not ended, it has failed.
+                if n == 0 && !buf.is_empty() && s.header().is_none() {
+                    return Err(io::Error::new(io::ErrorKind::InvalidData, "the gzip header could not be read"));
+                }
                 finish_framing(n, buf, s.get_mut())
             }
         }
